@@ -34,6 +34,9 @@ ASSUMPTIONS = [
     "the +-120 s windows around leap seconds are outside the quantifier",
     "EOP configurations per shard: real tables / zero corrections with real leap seconds",
     "SGP4 orbits are near-Earth (11-15.5 rev/day); KeplerNum: rk4, 60 s, Earth only, |dt| <= 40 min",
+    "maneuvers facet: KeplerNum (rk4, 60 s) forward over 15-90 min with 1-2 ImpulsiveMan and an optional "
+    "ContinuousMan whose dates carry their own labels; UT1 / TDB burn instants are kept 20 us away from the "
+    "step boundaries and rk4 mid-points they are compared with (their resolution is 1 us)",
 ]
 LEVEL_TEXT = "exploration"
 LEVEL_NOTE = "all facets sampled; the 35 label pairs are walked uniformly"
@@ -569,6 +572,11 @@ def check_ccsds(case):
 
     us, kind, fmt, step = case["us"], case["kind"], case["fmt"], case["step"]
     Y = lab(us, case["Y"])
+    # every other date of the message is converted to the declared time system by the writer: a UT1
+    # system must not meet an instant inside the window where the UT1 reading is ambiguous (C03)
+    others_us = [us + k * step for k in range(case["n"])] if kind.startswith("oem") else [us + step]
+    if Y == "UT1" and any(t3.ut1_slack(u, ("UT1",)) for u in others_us):
+        Y = "TDB"
     labels = [Y]
     if kind == "omm":
         # (a TLE without name line gives an empty OBJECT_NAME, which the XML reader cannot load: C13)
@@ -734,6 +742,102 @@ def check_utils(case):
                 ratio=abs(diff) / tol)
 
 
+# ------------------------------------------------------------------ maneuvers (numerical propagation)
+
+MAN_STEP = 60 * US
+
+
+@st.composite
+def man_case(draw, shard, tier):
+    leaps = t3.leap_days()
+    us = draw(gd.instants(leaps, lo_mjd=gd.LO_MJD + 3, hi_mjd=gd.HI_MJD - 3))
+    if not gd.leap_free(us - US, us + 3 * 3600 * US, leaps):
+        us += 2 * US_DAY
+    X, Y = draw(label_pair())
+    dt = draw(gd.uniform_int(15 * 60 * US, 90 * 60 * US))
+    el = draw(go.elements(hyperbolic=False, emax_ell=0.2, rp_range=(1.06, 1.6)))
+
+    def burn_offset():
+        k = draw(st.integers(1, max(1, dt // MAN_STEP - 1)))
+        d = draw(st.sampled_from([0, 1, -1, 30 * US]) | gd.mixed_int(-70 * US, 70 * US, 2))
+        return max(5 * US, min(dt - 5 * US, k * MAN_STEP + d))
+
+    mans = []
+    for _ in range(draw(st.integers(1, 2))):
+        mans.append(dict(kind="impulsive", off=burn_offset(), Z=iers.SCALES[draw(st.integers(0, 5))],
+                         dv=[draw(go.uniform(-15.0, 15.0)) for _ in range(3)],
+                         frame=draw(st.sampled_from(["TNW", "QSW", None]))))
+    if draw(st.booleans()):
+        mans.append(dict(kind="continuous", off=burn_offset(), dur=float(draw(st.integers(30, 600))),
+                         Z=draw(st.sampled_from(["UTC", "TAI", "TT", "GPS", "TDB"])),
+                         accel=[draw(go.uniform(-0.02, 0.02)) for _ in range(3)],
+                         frame=draw(st.sampled_from(["TNW", "QSW", None]))))
+    return dict(us=us, X=X, Y=Y, dt=dt, el=el, mans=mans)
+
+
+def _man_off(m, Z):
+    """A UT1 / TDB date is only good to 1 us: keep such burn instants 20 us away from the instants the
+    integrator compares them with (step boundaries and the rk4 mid-points)."""
+    off = m["off"]
+    if inexact(Z):
+        r = off % (30 * US)
+        if r < 20:
+            off += 20 - r
+        elif r > 30 * US - 20:
+            off -= 20 - (30 * US - r)
+    return off
+
+
+def run_man(case, X, Y, zlabels):
+    from beyond.dates import timedelta
+    from beyond.env.solarsystem import get_body
+    from beyond.orbits.man import ContinuousMan, ImpulsiveMan
+    from beyond.propagators.keplernum import KeplerNum
+
+    us = case["us"]
+    orb = cart_orbit(case["el"], date_of(us, Y), KeplerNum(timedelta(seconds=60), get_body("Earth")))
+    mans = []
+    for m, Z, Zreal in zip(case["mans"], zlabels, case["_zreal"]):
+        when = date_of(us + _man_off(m, Zreal), Z)
+        if m["kind"] == "impulsive":
+            mans.append(ImpulsiveMan(when, m["dv"], frame=m["frame"]))
+        else:
+            mans.append(ContinuousMan(when, timedelta(seconds=m["dur"]), accel=m["accel"], frame=m["frame"]))
+    orb.maneuvers = mans
+    res = orb.propagate(date_of(us + case["dt"], X))
+    return np.asarray(res.copy(form="cartesian").base, float), res.date
+
+
+def check_man(case):
+    us = case["us"]
+    X, Y = lab(us + case["dt"], case["X"]), lab(us, case["Y"])
+    if inexact(Y):
+        Y = "GPS"  # the integrator steps epoch + k * 60 s in the epoch's own scale (C03: uniform scales)
+    zl = [lab(us + m["off"], m["Z"]) for m in case["mans"]]
+    if (X, Y) == ("UTC", "UTC") and set(zl) == {"UTC"}:
+        zl[0] = "TT"
+    case = dict(case, _zreal=zl)
+    ref, rdate = run_man(case, "UTC", "UTC", ["UTC"] * len(zl))
+    got, gdate = run_man(case, X, Y, zl)
+    desc = (f"KeplerNum(rk4, 60 s) epoch {date_of(us, Y)}, maneuvers "
+            f"{[(m['kind'], str(date_of(us + _man_off(m, z), z))) for m, z in zip(case['mans'], zl)]}, "
+            f"propagate({date_of(us + case['dt'], X)})")
+    labels = (X, Y) + tuple(zl)
+    dts = 2e-6 if inexact(*labels) else 0.0
+    # a continuous burn whose start / stop moves by 1 us changes the velocity by accel x 1 us
+    extra_v = sum(0.04 * 2e-6 for m in case["mans"] if m["kind"] == "continuous") if inexact(*zl) else 0.0
+    ratio = compare_states(desc, got, ref, dts, kind="maneuver-label-dependent",
+                           extra_pos=extra_v * case["dt"] / 1e6, extra_vel=extra_v + 1e-12)
+    same_instant(desc, gdate, rdate, labels)
+    near = any(min(m["off"] % MAN_STEP, MAN_STEP - m["off"] % MAN_STEP) <= 1 for m in case["mans"])
+    cls = [f"eop:{t3.cfg()}", f"X:{X}", f"Y:{Y}"] + sorted({f"Z:{z}" for z in zl}) + sorted({m["kind"] for m in case["mans"]})
+    if any(z != Y for z in zl):
+        cls.append("maneuver-label-differs-from-epoch")
+    if near:
+        cls.append("burn-on-a-step-boundary(+-1us)")
+    return dict(nt=any(z != Y for z in zl) or (X, Y) != ("UTC", "UTC"), cls=cls, ratio=ratio)
+
+
 # ------------------------------------------------------------------ facets
 
 FACETS = [
@@ -743,6 +847,9 @@ FACETS = [
           rule="every case ((X, Y) != (UTC, UTC) by construction)", quick=(4, 100), thorough=(8, 1000)),
     Facet("propagators", prop_case, check_prop, setup=setup,
           rule="every case ((X, Y) != (UTC, UTC) by construction)", quick=(8, 120), thorough=(32, 600)),
+    Facet("maneuvers", man_case, check_man, setup=setup,
+          rule="some maneuver date is labelled differently from the epoch, or (X, Y) != (UTC, UTC)",
+          quick=(8, 25), thorough=(16, 250)),
     Facet("frames", frame_case, check_frames, setup=setup,
           rule="source frame differs from target frame", quick=(8, 300), thorough=(32, 1500)),
     Facet("interp", interp_case, check_interp, setup=setup,
